@@ -55,6 +55,15 @@ CHECKS = {
  "C16": ("usage-context classification of every nondeterminism-source call in parser/compile/back ends; section mirroring check in parse_text; exhaustive artefact agreement between shipped YAML (data) and shipped generated module (AST) with independent constant evaluator, sha256 recomputation and natural-layout calculator",
          "No time/random/pid/cwd/absolute-path/id()/hash()/set-order value can reach emitted text; every parsed section is mirrored into the combined YAML (repeatable `_RESERVED_` merged); core_defs.py agrees with core_defs.yaml + imports on every constant, alias, id, type_def, recomputed type_hash, descriptor sequence and natural size (445 comparisons, exhaustive over the shipped files; thorough adds tests/ and examples/ pairs: 3060).",
          "Byte-identity of two real runs and the YAML emitter/loader round trip need execution and are not decided; black trusted deterministic.", "DESIGN.md §2 C16"),
+ "C03": ("interprocedural taint from received header/payload fields, counter key sets and the connection count to partial primitives (recv size, fixed-array index, ASCII decode) with dominating-guard truth tables (integer theory); bottom-up may-mutate summaries over the call graph (incl. the logging -> send_message edge) against every loop over a manager container; typestate of removed modules in snapshot loops; handler coverage of socket sites",
+         "None of the enumerated crash channels into the uncaught region of run() is open: every client-controlled operand of a partial primitive is bounded by a dominating guard or handler, no loop over a live manager container can have it mutated by its own body and iterate again, snapshot loops re-establish liveness and remove_module is idempotent, every socket operation is covered by a removing ConnectionError handler.",
+         "This is NOT 'the manager cannot crash': no sound may-raise analysis exists for Python; only the listed partial primitives and channels are decided. Seven defects found by these rules were repaired (known_findings.json, findings/c03_crash_channels.py).", "DESIGN.md §2 C03"),
+ "C17": ("thread-role derivation from the Thread target over the call graph; who-may-access classification of the two buffers; evidence-edge reachability (staging only after `not is_set()` or a completed wait); per-iteration must-precede of the Event operations; structural finalisation order",
+         "Decides the hand-off discipline of the double buffer (necessary conditions, each with the interleaving that breaks the property when the rule is broken): buffer ownership by role, fresh-list swap, staging only on evidence of a completed hand-off, stage+clear-finished before token, write before both signals, finished published before the token is released, append-before-flush under the selection guard, stop/finalise/close order of data sets and formatters.",
+         "Exactly-once / in-order over ALL interleavings is a model-checking problem and is NOT decided by this family; file contents and quick-logger offset arithmetic are not decided.", "DESIGN.md §2 C17, §3"),
+ "C18": ("who-may-write and dominating-guard checks on the counters; read-then-reset ordering with call-graph forwarding closure; abstract interpretation of send_traffic over symbolic (type, count) entries for table sizes around 0, K, 2K, 3K",
+         "Counters are incremented only in forward_message, once, before any exit, never for statistics messages; cleared only by their reporter after the copy with nothing forwarded in between; the timing table stores every counted type and module; the sub-messages of one MESSAGE_TRAFFIC report list every entry exactly once with its own count (10 table sizes; the loop is periodic in the chunk size).",
+         "uint16 saturation of counts and interval timing are values/time and not decided.", "DESIGN.md §2 C18"),
 }
 
 NOT_YET = "check not built yet (build phase in progress)"
